@@ -96,6 +96,7 @@ def cases(tier, mode='func'):
             d.update(fd)
             out += func_cases(tier, prefix='c15.%s' % fs, extra=d, nmax=3 if q else 4, ops=('PUT', 'REMOVE', 'GET', 'MIN', 'MAX', 'CLEAR'))
             out += [tree_case('c15.ts.%s' % fs, shapes(0)[0], 'CTOR', dict(d, VF_TS=None))]
+            out += [tree_case('c15.%s' % fs, sh, op, d) for sh in shapes(2 if q else 3) for op in ('WALK', 'NEAREST')]
         return out
     raise ValueError(mode)
 
